@@ -29,6 +29,7 @@ class Spec:
     rule = ""                     # how cases are generated / what counts as non-trivial
     assumptions = []              # property-specific trusted base / hypotheses
     panic_is_failure = True       # an uncaught panic of the implementation is a concrete violation
+    oracle_filter = None          # names of the oracles that decide THIS property (None = all)
 
     def batches(self, rng, tier):
         raise NotImplementedError
@@ -82,7 +83,9 @@ def classify(spec, batch, cases, results, report):
         if r["err"]:
             report.errors.append((c, r, r["err"]))
             continue
-        bad_oracles = [k for k, v in r["oracles"].items() if not v]
+        bad_oracles = [k for k, v in r["oracles"].items() if not v and (spec.oracle_filter is None or k in spec.oracle_filter)]
+        for k in r["oracles"]:
+            report.count("oracle:" + k)
         if r["panic"] is not None and r["model"] == PANIC_MARKER:
             report.count("agreed-panic")
             continue           # model and implementation agree that this input panics
@@ -114,29 +117,45 @@ def classify(spec, batch, cases, results, report):
                 report.samples.append(spec.show(c))
 
 
-def run_batches(spec, scratch, binary, batches, report):
+def _run_one(spec, scratch, binary, b, cases, tag):
+    cfg = write_config(scratch, b.name, b.config) if b.config is not None else None
+    results, info = run_both(scratch, binary, cases, cfg_home=cfg, timeout=b.timeout, extra_env=b.env, tag=tag)
+    info["batch"] = tag
+    info["cases"] = len(cases)
+    return results, info
+
+
+def run_batches(spec, scratch, binary, batches, report, shards=12):
+    from concurrent.futures import ThreadPoolExecutor
     for b in batches:
         if not b.cases:
             continue
-        cfg = write_config(scratch, b.name, b.config) if b.config is not None else None
-        results, info = run_both(scratch, binary, b.cases, cfg_home=cfg, timeout=b.timeout, extra_env=b.env, tag=b.name)
-        info["batch"] = b.name
-        info["cases"] = len(b.cases)
-        report.batch_info.append(info)
-        if info["impl_rc"] not in (0,):
-            # the harness process died (os.Exit / fatal error / timeout): whatever case it was
-            # working on is lost; record which one
-            done = [c for c in b.cases if results[c.id]["impl"] is not None or results[c.id]["panic"] is not None]
-            nxt = b.cases[len(done)] if len(done) < len(b.cases) else None
-            report.errors.append((nxt, {"impl": None, "model": None, "oracles": {}, "panic": None,
-                                        "err": "harness exited %s: %s" % (info["impl_rc"], info["impl_stderr"][-500:])},
-                                  "harness process died in batch %s" % b.name))
-            if nxt is not None:
-                results[nxt.id]["err"] = None
-                results[nxt.id]["panic"] = "process died: " + (info["impl_stderr"][-300:].replace("\n", " ") or str(info["impl_rc"]))
-                for c in b.cases[len(done) + 1:]:
-                    results[c.id]["err"] = "not run (harness died earlier)"
-        classify(spec, b, b.cases, results, report)
+        for i, c in enumerate(b.cases):
+            c.id = "k%d" % i
+        if getattr(b, "parallel", True) and len(b.cases) >= 400:
+            n = min(shards, max(1, len(b.cases) // 200))
+            parts = [b.cases[i::n] for i in range(n)]
+        else:
+            parts = [b.cases]
+        with ThreadPoolExecutor(max_workers=len(parts)) as ex:
+            futs = [ex.submit(_run_one, spec, scratch, binary, b, part, "%s.%d" % (b.name, i)) for i, part in enumerate(parts)]
+            outs = [f.result() for f in futs]
+        for part, (results, info) in zip(parts, outs):
+            report.batch_info.append(info)
+            if info["impl_rc"] not in (0,):
+                # the harness process died (os.Exit / fatal error / timeout): whatever case it was
+                # working on is lost; record which one
+                done = [c for c in part if results[c.id]["impl"] is not None or results[c.id]["panic"] is not None]
+                nxt = part[len(done)] if len(done) < len(part) else None
+                report.errors.append((nxt, {"impl": None, "model": None, "oracles": {}, "panic": None,
+                                            "err": "harness exited %s: %s" % (info["impl_rc"], info["impl_stderr"][-500:])},
+                                      "harness process died in batch %s" % b.name))
+                if nxt is not None:
+                    results[nxt.id]["err"] = None
+                    results[nxt.id]["panic"] = "process died: " + (info["impl_stderr"][-300:].replace("\n", " ") or str(info["impl_rc"]))
+                    for c in part[len(done) + 1:]:
+                        results[c.id]["err"] = "not run (harness died earlier)"
+            classify(spec, b, part, results, report)
 
 
 def shrink_failure(spec, scratch, binary, case, is_bad, budget=60):
